@@ -150,6 +150,17 @@ def gen_world(rng: random.Random, tier: str) -> dict:
             w["ndat"][1], w["nch"][1], w["ref_ind"][1] = w["ndat"][0], w["nch"][0], list(w["ref_ind"][0])
             w["alias01"] = True
     w["log_debug"] = rng.random() < 0.1  # the package logger at DEBUG level: must not change anything
+    if rng.random() < 0.0008:
+        # once in a while a really long record (more than 2**22 samples x channels): code paths that only exist for
+        # large inputs (chunking, block-wise processing, memory-saving shortcuts) are otherwise never entered
+        w["huge"] = True
+        w["ndat"], w["nch"] = [rng.randint(1_050_000, 1_150_000)], [4]
+        w["dtype"] = rng.choice(["float64", "float32", "int64", "int64"])
+        w["layout"] = "C"
+        for k_ in ("alias01", "share_ref_obj"):
+            w.pop(k_, None)
+        if kind == "preger":
+            w["ref_ind"] = [[rng.randrange(4)]]
     return w
 
 
@@ -663,6 +674,12 @@ def run_case(seed, tier="quick", case=None, known=()):
     if case is None:
         world = gen_world(rng, tier)
         swarm = gen_swarm(rng, tier)
+        if world.get("huge"):
+            swarm["nops"] = min(swarm["nops"], 3)
+            swarm.pop("echo", None)
+            swarm["foreign"] = False
+            swarm["faulty"] = False
+            swarm["w"]["filter"] = max(swarm["w"]["filter"], 3.0)
         if world.get("fs_as") == "nd0":
             # scipy's own filter design refuses a zero-dimensional array as fs ("must be a single scalar"), so whether
             # filter_data accepts it is up to the implementation: such worlds decimate, detrend, roll back and add only
